@@ -29,7 +29,7 @@ pub fn run(ctx: &mut Ctx) {
     // the statement's quantifier includes every integer Hz of 137-1020 MHz: only the thorough tier enumerates that
     ctx.exhaustive = full;
     ctx.rule = format!(
-        "(VERIF_SEED only selects the random histories of the stateful stage; everything else is enumerated) STATELESS ENUMERATION: FREQUENCY: set_channel on Sx126x(SX1262), Sx127x(SX1276), Sx127x(SX1272) for {}; plus ~390 named LoRaWAN channel frequencies (EU868, EU433, US915, AU915, AS923-1..4, IN865, KR920, CN470) through LorawanRadio::tx and ::setup_rx on the three chips; the captured SetRfFrequency word / RegFrf bytes are decoded with the datasheet formula. POWER: every request -128..=127 plus 17 wide values (i32 extremes, +-256, +-32768, ...) x 8 PA paths (SX1261, SX1262, STM32WL HP/LP, SX1276 RFO/PA_BOOST, SX1272 RFO/PA_BOOST) x band (unknown, 169.4, 399.999999, 400.0, 433.175, 868.1, 915, 1020 MHz) x ramp selection x all 8 board-option combinations (rx_boost, DC-DC, TCXO) through RadioKind::set_tx_power_and_ramp_time, -128..=127 x 8 x 7 bands x board options none/all through LoRa::prepare_for_tx, and -128..=127 x 8 x 7 bands through LorawanRadio::tx. SYMBOL TIMEOUT: do_rx(RxMode::Single(n)) for every n in 0..=65535 on SX1261, SX1262(rx boost), SX1276, SX1272. ADAPTER: LorawanRadio::setup_rx(Single{{ms}}) + rx_single for every (SF, BW) x ms 0..=1000 on SX1276, SX1262 and SX1272, reading the programmed symbol count back from the chip model (12 margins beyond 1000 ms up to u32::MAX are exercised too and recorded as classes 'adapter:beyond-1000ms-not-judged:*', outside the statement's domain). 14 set_channel requests outside 137-1020 MHz per chip are exercised for panics only. STATUS: all 2^24 GetPacketStatus triples + every status byte + GetRssiInst on SX126x, all 65536 (RssiPkt, SnrPkt) through LorawanRadio::rx_single, all (PktSnr, PktRssi) x 9 frequencies on SX1276 and x 2 on SX1272 + RegRssiValue, a 4096-point grid per SX127x chip through rx_single at 868.1 MHz and a 1024-point grid at 137 / 169.4 / 433.175 / 490 / 525 / 862 / 915 / 1020 MHz (SX1276) and 915 MHz (SX1272) through rx_single. One evaluation = one such call sequence. Non-trivial (distinct by construction, each enumerated tuple is visited once): frequency not a multiple of the synthesiser step; power request at or beyond a clamp edge of the PA path; symbol count at/above the chip maximum, below 4, or (SX126x) not representable as mantissa*2^(2e+1); adapter margin not a whole number of symbols on a pair the chip supports; raw SNR byte with the sign bit set.{}",
+        "(VERIF_SEED only selects the random histories of the stateful stage; everything else is enumerated) STATELESS ENUMERATION: FREQUENCY: set_channel on Sx126x(SX1262), Sx127x(SX1276), Sx127x(SX1272) for {}; plus ~390 named LoRaWAN channel frequencies (EU868, EU433, US915, AU915, AS923-1..4, IN865, KR920, CN470) through LorawanRadio::tx and ::setup_rx on the three chips; the captured SetRfFrequency word / RegFrf bytes are decoded with the datasheet formula. POWER: every request -128..=127 plus 17 wide values (i32 extremes, +-256, +-32768, ...) x 8 PA paths (SX1261, SX1262, STM32WL HP/LP, SX1276 RFO/PA_BOOST, SX1272 RFO/PA_BOOST) x band (unknown, 169.4, 399.999999, 400.0, 433.175, 868.1, 915, 1020 MHz) x ramp selection x all 8 board-option combinations (rx_boost, DC-DC, TCXO) through RadioKind::set_tx_power_and_ramp_time, -128..=127 x 8 x 7 bands x board options none/all through LoRa::prepare_for_tx, and -128..=127 x 8 x 7 bands x adapter antenna gains G {{0, -3, 6}} through LorawanRadio::tx (the MAC has already taken G off TxConfig.pw: the programmed power must not depend on it). SYMBOL TIMEOUT: do_rx(RxMode::Single(n)) for every n in 0..=65535 on SX1261, SX1262(rx boost), SX1276, SX1272. ADAPTER: LorawanRadio::setup_rx(Single{{ms}}) + rx_single for every (SF, BW) x ms 0..=1000 on SX1276, SX1262 and SX1272, reading the programmed symbol count back from the chip model (12 margins beyond 1000 ms up to u32::MAX are exercised too and recorded as classes 'adapter:beyond-1000ms-not-judged:*', outside the statement's domain). 14 set_channel requests outside 137-1020 MHz per chip are exercised for panics only. STATUS: all 2^24 GetPacketStatus triples + every status byte + GetRssiInst on SX126x, all 65536 (RssiPkt, SnrPkt) through LorawanRadio::rx_single, all (PktSnr, PktRssi) x 9 frequencies on SX1276 and x 2 on SX1272 + RegRssiValue, a 4096-point grid per SX127x chip through rx_single at 868.1 MHz and a 1024-point grid at 137 / 169.4 / 433.175 / 490 / 525 / 862 / 915 / 1020 MHz (SX1276) and 915 MHz (SX1272) through rx_single. One evaluation = one such call sequence. Non-trivial (distinct by construction, each enumerated tuple is visited once): frequency not a multiple of the synthesiser step; power request at or beyond a clamp edge of the PA path; symbol count at/above the chip maximum, below 4, or (SX126x) not representable as mantissa*2^(2e+1); adapter margin not a whole number of symbols on a pair the chip supports; raw SNR byte with the sign bit set.{}",
         if full { "EVERY integer Hz of 137..=1020 MHz (8.83e8 values per chip)" } else { "every integer Hz of the LoRaWAN bands 433.05-434.79, 863-870 (contains 865-867) and 902-928 MHz (superset of the 100 Hz channel grid) and a 101 Hz stride over the rest of 137-1020 MHz" },
         hist::RULE
     );
